@@ -32,6 +32,7 @@ def check_dispatch(ctx, R):
     base, classes = region_classes(model)
     extra = [model.cls(WS, "Workspace")] if model.has_module(WS) else []
     n = 0
+    retries = []
     for ci in classes + extra:
         for m in BINARY_OPS:
             fn = ci.methods.get(m)
@@ -62,26 +63,43 @@ def check_dispatch(ctx, R):
                         )
                 elif recv == other and c.args and unparse(c.args[0]) == "self":
                     n += 1
-                    if given is not None and isinstance(given, ast.Constant) and given.value is True:
-                        ctx.ok(R, c, f"{ci.name}.{m}: reversed retry passes triedReversed=True")
-                    else:
-                        ctx.finding(
-                            R,
-                            c,
-                            f"{ci.name}.{m} reversed retry {norm_text(c, 80)}",
-                            f"{ci.name}.{m}: reversed retry `{unparse(c)}` does not pass triedReversed=True; if the other operand "
-                            f"retries the same way the two calls recurse for ever",
-                        )
-                    # and must be reached only when this call is not itself the reversed one
-                    g = [(unparse(t), p) for t, p in lib.guard_tests(c, fn)]
-                    oknot = any((t == "triedReversed" and not p) or (t in ("not triedReversed", "triedReversed is False") and p) for t, p in g)
-                    if not oknot:
-                        ctx.finding(
-                            R,
-                            c,
-                            f"{ci.name}.{m} unguarded reversed retry",
-                            f"{ci.name}.{m}: reversed retry `{unparse(c)}` is not guarded by `not triedReversed`",
-                        )
+                    flagged = given is not None and isinstance(given, ast.Constant) and given.value is True
+                    conj = []
+                    for t_, p_ in lib.guard_tests(c, fn):
+                        parts = t_.values if isinstance(t_, ast.BoolOp) and isinstance(t_.op, ast.And) and p_ else [t_]
+                        conj.extend((unparse(x), p_) for x in parts)
+                    retries.append((ci, m, c, flagged, conj))
+    # an unflagged retry is safe only if the other operand cannot be of a class that also retries unflagged
+    unflagged = {ci.name for ci, m, c, flagged, conj in retries if not flagged}
+    for ci, m, c, flagged, conj in retries:
+        oknot = any((t_ == "triedReversed" and not p_) or (t_ in ("not triedReversed", "triedReversed is False") and p_) for t_, p_ in conj)
+        if not oknot:
+            ctx.finding(
+                R,
+                c,
+                f"{ci.name}.{m} unguarded reversed retry",
+                f"{ci.name}.{m}: reversed retry `{unparse(c)}` is not guarded by `not triedReversed`",
+            )
+            continue
+        if flagged:
+            ctx.ok(R, c, f"{ci.name}.{m}: reversed retry passes triedReversed=True")
+            continue
+        other = [a.arg for a in ci.methods[m].args.args][1]
+        excluded = set()
+        for t_, p_ in conj:
+            if p_ and t_.startswith(f"not isinstance({other}, "):
+                inner = t_[len(f"not isinstance({other}, ") : -1].strip("()")
+                excluded |= {x.strip() for x in inner.split(",") if x.strip()}
+        if unflagged <= excluded:
+            ctx.ok(R, c, f"{ci.name}.{m}: unflagged reversed retry `{unparse(c)}` excludes every class that also retries unflagged ({sorted(unflagged)})")
+        else:
+            ctx.finding(
+                R,
+                c,
+                f"{ci.name}.{m} reversed retry {norm_text(c, 80)}",
+                f"{ci.name}.{m}: reversed retry `{unparse(c)}` does not pass triedReversed=True and does not exclude operands of "
+                f"{sorted(unflagged - excluded)}, which retry the same way: the two calls recurse for ever",
+            )
     ctx.floor(R, n, 25, "delegations / reversed retries of intersect, union, intersects")
 
 
